@@ -277,10 +277,12 @@ class SymT:
     @staticmethod
     def cast(v, want):
         t, ty = v
-        if ty == want or ty == "num":
+        if ty == want or (ty == "num" and want in ("rat", "int", "nat")):
             return t
         if ty == "int" and want == "rat":
             return f"(({t} : Int) : Rat)"
+        if ty == "num" and want == "natlist":
+            raise Untranslatable(f"cannot use a number as a list: {t}")
         if ty == "nat" and want == "int":
             return f"(({t} : Nat) : Int)"
         if ty == "nat" and want == "rat":
@@ -307,6 +309,12 @@ class SymT:
             a, b = self.expr(n.left), self.expr(n.right)
             if isinstance(n.op, ast.Mod):
                 return (f"(pyMod {self.cast(a, 'rat')} {self.cast(b, 'rat')})", "rat")
+            if isinstance(n.op, ast.FloorDiv) and a[1] in ("nat", "num") and b[1] in ("nat", "num"):
+                return (f"({a[0]} / {b[0]})", "nat")        # non-negative integers: Python's // is Nat division
+            if isinstance(n.op, ast.Mult) and a[1] == "natlist" and b[1] in ("nat", "num"):
+                return (f"({a[0]}.map (· * {b[0]}))", "natlist")
+            if isinstance(n.op, ast.Mult) and b[1] == "natlist" and a[1] in ("nat", "num"):
+                return (f"({b[0]}.map (· * {a[0]}))", "natlist")
             op = {ast.Add: "+", ast.Sub: "-", ast.Mult: "*", ast.Div: "/"}.get(type(n.op))
             if op is None:
                 _fail(n, "unsupported operator")
@@ -349,6 +357,28 @@ class SymT:
                 v = self.expr(n.args[0])
                 if v[1] == "list:nat×nat":
                     return (f"(sortedByKey (fun c => c.1 + c.2) {v[0]})", v[1])
+            if isinstance(f, ast.Attribute) and not n.keywords and not n.args and f.attr in ("ravel", "cumsum"):
+                v = self.expr(f.value)
+                if v[1] == "natlist":
+                    return (v[0] if f.attr == "ravel" else f"(cumsum {v[0]})", "natlist")
+            if isinstance(f, ast.Attribute) and isinstance(f.value, ast.Name) and f.value.id == "np":
+                if f.attr == "atleast_1d" and len(n.args) == 1 and not n.keywords:
+                    v = self.expr(n.args[0])
+                    if v[1] == "natlist":
+                        return v
+                if f.attr == "arange" and len(n.args) == 2 and not n.keywords:
+                    a_, b_ = self.expr(n.args[0]), self.expr(n.args[1])
+                    if a_[1] in ("nat", "num") and b_[1] in ("nat", "num"):
+                        return (f"(npArange {a_[0]} {b_[0]})", "natlist")
+                if f.attr == "searchsorted" and len(n.args) == 2 and len(n.keywords) == 1 and n.keywords[0].arg == "side" \
+                        and isinstance(n.keywords[0].value, ast.Constant) and n.keywords[0].value.value == "right":
+                    a_, b_ = self.expr(n.args[0]), self.expr(n.args[1])
+                    if a_[1] == "natlist" and b_[1] == "natlist":
+                        return (f"({b_[0]}.map (searchsortedRight {a_[0]}))", "natlist")
+                if f.attr == "unique" and len(n.args) == 1 and not n.keywords:
+                    v = self.expr(n.args[0])
+                    if v[1] == "natlist":
+                        return (v[0], "uniq:natlist")      # only `.size` of it is supported
             if isinstance(f, ast.Name) and f.id == "abs" and len(n.args) == 1:
                 return (f"(ratAbs {self.cast(self.expr(n.args[0]), 'rat')})", "rat")
             if isinstance(f, ast.Name) and f.id == "int" and len(n.args) == 1 and isinstance(n.args[0], ast.Call) \
@@ -363,6 +393,19 @@ class SymT:
             if isinstance(f, ast.Attribute) and isinstance(f.value, ast.Name) and f.value.id == "np" and f.attr == "allclose" and len(n.args) == 2:
                 return (f"(allclose1 {self.cast(self.expr(n.args[0]), 'rat')} {self.cast(self.expr(n.args[1]), 'rat')})", "bool")
             _fail(n, "unsupported call")
+        if isinstance(n, ast.Attribute) and n.attr == "size":
+            v = self.expr(n.value)
+            if v[1] == "natlist":
+                return (f"{v[0]}.length", "nat")
+            if v[1] == "uniq:natlist":
+                return (f"(npUniqueSize {v[0]})", "nat")
+        if isinstance(n, ast.Subscript) and isinstance(n.slice, (ast.Constant, ast.UnaryOp)):
+            idx = n.slice.value if isinstance(n.slice, ast.Constant) else \
+                (-n.slice.operand.value if isinstance(n.slice.op, ast.USub) and isinstance(n.slice.operand, ast.Constant) else None)
+            if idx in (0, -1) and not (isinstance(n.value, ast.Name) and f"{n.value.id}[{idx}]" in self.env):
+                v = self.expr(n.value)
+                if v[1] == "natlist":
+                    return (f"({v[0]}.headD 0)" if idx == 0 else f"({v[0]}.getLastD 0)", "nat")
         if isinstance(n, ast.Subscript) and isinstance(n.value, ast.Name) and isinstance(n.slice, ast.Constant):
             key = f"{n.value.id}[{n.slice.value}]"
             if key in self.env:
@@ -411,7 +454,7 @@ class SymT:
             sym = {ast.Gt: ">", ast.Lt: "<", ast.GtE: "≥", ast.LtE: "≤", ast.Eq: "=", ast.NotEq: "≠"}.get(type(op))
             if sym is None:
                 _fail(n, "unsupported comparison")
-            want = "rat" if "rat" in (a[1], b[1]) else ("int" if "int" in (a[1], b[1]) else "rat")
+            want = "rat" if "rat" in (a[1], b[1]) else ("int" if "int" in (a[1], b[1]) else ("nat" if "nat" in (a[1], b[1]) else "rat"))
             return f"{self.cast(a, want)} {sym} {self.cast(b, want)}"
         _fail(n, "unsupported condition")
 
@@ -563,7 +606,8 @@ def translate_typed(path, name, lean_name, params, rettypes, ignore_calls=(), st
             outs = []
     if outs is None or len(outs) != len(rts):
         raise Untranslatable(f"{name}: expected {len(rts)} returned value(s)")
-    lean_ty = {"rat": "Rat", "int": "Int", "bool": "Bool", "str": "String", "list:nat×nat": "List (Nat × Nat)"}
+    lean_ty = {"rat": "Rat", "int": "Int", "bool": "Bool", "str": "String", "list:nat×nat": "List (Nat × Nat)", "nat": "Nat",
+               "natlist": "List Nat"}
     vals = ", ".join(SymT.cast(o, t) if t in ("rat", "int") else o[0] for o, t in zip(outs, rts))
     rtype = " × ".join(lean_ty[t] for t in rts) if rts else "Unit"
 
@@ -647,6 +691,32 @@ def generate_trend():
 
 def main_trend(write=True):
     return _regen(generate_trend, GEN_TREND, SNAP_TREND, write)
+
+
+HEADER_UTILS = """/-
+  GENERATED by harness/py2lean.py from the source text of /repo on every check run — do not edit.
+  `partition_by_sum` (utils.py) over numpy primitives modelled as list functions (cumsum, arange, searchsorted(side="right"),
+  unique(...).size); Props/C11.lean proves it equal to the model's `partitionBySum`.
+-/
+import VerdeModel.Model.CV
+namespace Verde.Gen
+open Verde
+
+"""
+GEN_UTILS = os.path.join(VERIF, "lean", "VerdeModel", "Gen", "Utils.lean")
+SNAP_UTILS = os.path.join(VERIF, "lean", "VerdeModel", "GenSnapshot", "Utils.lean.txt")
+
+
+def generate_utils():
+    parts = [
+        translate_typed("verde/utils.py", "partition_by_sum", "partitionBySum",
+                        [("array", "array", "natlist"), ("parts", "parts", "nat")], ["natlist"]),
+    ]
+    return HEADER_UTILS + "\n".join(parts) + "\nend Verde.Gen\n"
+
+
+def main_utils(write=True):
+    return _regen(generate_utils, GEN_UTILS, SNAP_UTILS, write)
 
 
 def main_kernels_and_trend(write=True):
